@@ -456,6 +456,13 @@ class Interp:
             if isinstance(cur, list) and op == "Add":
                 cur.extend(rhs)
                 return
+            if isinstance(cur, set) and op in ("BitOr", "BitAnd", "Sub", "BitXor") and isinstance(rhs, (set, frozenset)):
+                # augmented assignment on a set mutates THE OBJECT (every alias sees it), like list +=
+                {"BitOr": cur.update, "BitAnd": cur.intersection_update, "Sub": cur.difference_update, "BitXor": cur.symmetric_difference_update}[op](rhs)
+                return
+            if isinstance(cur, dict) and op == "BitOr" and isinstance(rhs, dict):
+                cur.update(rhs)
+                return
             env.vars[s.target.id] = self.binop(op, cur, rhs, s.lineno)
         elif isinstance(s.target, ast.Attribute):
             obj = self.eval(s.target.value, env)
@@ -464,6 +471,12 @@ class Interp:
             if isinstance(cur, (SArr, SArr2)):
                 new = self.binop(op, cur, rhs, s.lineno)
                 self.write_whole(cur, new, s.lineno)
+                return
+            if isinstance(cur, set) and op in ("BitOr", "BitAnd", "Sub", "BitXor") and isinstance(rhs, (set, frozenset)):
+                {"BitOr": cur.update, "BitAnd": cur.intersection_update, "Sub": cur.difference_update, "BitXor": cur.symmetric_difference_update}[op](rhs)
+                return
+            if isinstance(cur, list) and op == "Add":
+                cur.extend(rhs)
                 return
             if isinstance(obj, SRec):
                 obj.set(s.target.attr, self.binop(op, cur, rhs, s.lineno))
@@ -659,6 +672,8 @@ class Interp:
             return list(it)
         if isinstance(it, dict):
             return list(it.keys())
+        if isinstance(it, (set, frozenset)):
+            return sorted(it, key=repr)
         if isinstance(it, SArr):
             n = conc(it.length)
             if isinstance(n, int) and n <= 64:
